@@ -52,6 +52,14 @@ op_string_to_function: Dict[str, Union[UNARY_TYPE, BINARY_TYPE, TRINARY_TYPE]] =
 }
 
 
+def int_to_str(value: int) -> str:
+    """
+    the number as text, for diagnostics. python refuses to convert an int of thousands of decimal digits
+    (ValueError, inside the very handler that builds the error message) - such numbers are shown in hex.
+    """
+    return str(value) if value.bit_length() <= 4096 else hex(value)
+
+
 class Expr:
     """
     The python representation of a .fj expression (from labels, consts and math-ops)
@@ -158,7 +166,7 @@ class Expr:
         if isinstance(self.value, str):
             return self.value
         if isinstance(self.value, int):
-            return str(self.value)
+            return int_to_str(self.value)
         raise FlipJumpExprException(f'bad expression: {self.value} (of type {type(self.value)})')
 
     def __repr__(self) -> str:
